@@ -1069,7 +1069,7 @@ impl AggregateTargetActor {
                             let ghost un_b0 = self.helper.un(ExecutionKind::Build);
                             let ghost un_s0 = self.helper.un(ExecutionKind::Service);
                             let ghost tr_pre = *tr;
-//@before 0 `if removed && self.helper.unavailable_dependencies[&kind].is_empty()`
+//@before 0 `if removed`
                             proof {
                                 if kind == ExecutionKind::Build {
                                     assert(self.helper.un(ExecutionKind::Build) == un_b0.remove(target_id));
@@ -1089,7 +1089,7 @@ impl AggregateTargetActor {
                             let ghost un_b1 = self.helper.un(ExecutionKind::Build);
                             let ghost un_s1 = self.helper.un(ExecutionKind::Service);
                             let ghost tr_pre1 = *tr;
-//@before 0 `if inserted && self.helper.unavailable_dependencies[&kind].len() == 1`
+//@before 0 `if inserted`
                             proof {
                                 if kind == ExecutionKind::Build {
                                     assert(self.helper.un(ExecutionKind::Build) == un_b1.insert(target_id));
@@ -1108,7 +1108,7 @@ impl AggregateTargetActor {
                                 assert(self.helper.un(kind).len() > 0);
                                 assert(tr.last_b == tr_pre1.last_b && tr.last_s == tr_pre1.last_s);
                             }
-//@after 0 `if inserted && self.helper.unavailable_dependencies[&kind].len() == 1`
+//@after 0 `if inserted`
                             proof {
                                 let sent = inserted && self.helper.un(kind).len() == 1;
                                 if kind == ExecutionKind::Build {
@@ -1125,7 +1125,7 @@ impl AggregateTargetActor {
                                     }
                                 }
                             }
-//@after 0 `if removed && self.helper.unavailable_dependencies[&kind].is_empty()`
+//@after 0 `if removed`
                             proof {
                                 let sent = removed && self.helper.un(kind).len() == 0;
                                 if kind == ExecutionKind::Build {
